@@ -89,9 +89,17 @@ TM_COMMON = (
     "            tilemap_wf(tilemap_data), tiles_in_tileset(tilemap_data, tileset, pixels.len() as int),\n"
     "            tilemap_width == tilemap_data.width as i32, tilemap_height == tilemap_data.height as i32,\n"
     "            tile_size == tileset.tile_size, tile_width == tile_size.width as i32, tile_height == tile_size.height as i32,\n"
-    "            cel_x == cel_data.x as i32, cel_y == cel_data.y as i32,\n")
+    "            cel_x == cel_data.x as i32, cel_y == cel_data.y as i32,\n"
+    "            opacity as int == spec_round8(outer_opacity as int, cel_data.opacity as int), blend_fn.mode == *blend_mode,\n"
+    "            forall|cx: int, cy: int| #[trigger] tm_done(cel_data, tilemap_data, tileset, cx, cy, tilemap_data.height as int, 0, 0, 0) == tm_covered(cel_data, tilemap_data, tileset, cx, cy),\n")
+def TM_PIX(ty, tx, py, px, ind):
+    return (ind + "forall|cx: int, cy: int| 0 <= cx < image.w() && 0 <= cy < image.h() ==>\n" +
+            ind + "    #[trigger] image.at(cx, cy) == (if tm_done(cel_data, tilemap_data, tileset, cx, cy, %s, %s, %s, %s) { tm_cel_pixel(old(image), cel_data, tilemap_data, tileset, pixels@, *blend_mode, outer_opacity, cx, cy) } else { old(image).at(cx, cy) }),\n" % (ty, tx, py, px))
+TM_TILE = ("            *tile == tilemap_data.tiles.0[(tile_y as int) * (tilemap_data.width as int) + (tile_x as int)],\n"
+           "            (tile.id.0 as int + 1) * ((tile_size.width as int) * (tile_size.height as int)) <= pixels.len(),\n"
+           "            tile_pixels@ == pixels@.subrange((tile.id.0 as int) * ((tile_size.width as int) * (tile_size.height as int)), (tile.id.0 as int + 1) * ((tile_size.width as int) * (tile_size.height as int))),\n")
 UNITS["tilemap"] = {
-    "prelude_sections": ["arch", "image", "tilemap_spec"],
+    "prelude_sections": ["arch", "image", "tilemap_spec", "tilemap_raster_spec"],
     "items": [
         {"kind": "struct", "file": "cel", "name": "CelCommon", "keep": None},
         {"kind": "struct", "file": "tile", "name": "TileId", "keep": None, "attrs": "#[derive(Clone, Copy)]\n"},
@@ -137,16 +145,27 @@ UNITS["tilemap"] = {
          "rules": ["R1", "R3", "R6", "R7"],
          "requires": ("        tilemap_wf(tilemap_data), tiles_in_tileset(tilemap_data, tileset, pixels.len() as int),\n"
                       "        old(image).w() <= 65535, old(image).h() <= 65535,"),
-         "ensures": "        final(image).w() == old(image).w(), final(image).h() == old(image).h(),",
+         "ensures": ("        final(image).w() == old(image).w(), final(image).h() == old(image).h(),\n"
+                     "        forall|cx: int, cy: int| 0 <= cx < old(image).w() && 0 <= cy < old(image).h() ==>\n"
+                     "            #[trigger] final(image).at(cx, cy) == tm_cel_pixel(old(image), cel_data, tilemap_data, tileset, pixels@, *blend_mode, outer_opacity, cx, cy),"),
          "loops": {
-             1: "        invariant\n" + TM_COMMON,
-             2: "            invariant\n" + TM_COMMON + "            0 <= tile_y < tilemap_height,\n",
+             1: "        invariant\n" + TM_COMMON + TM_PIX("tile_y as int", "0", "0", "0", "            "),
+             2: "            invariant\n" + TM_COMMON + "            0 <= tile_y < tilemap_height,\n" + TM_PIX("tile_y as int", "tile_x as int", "0", "0", "            "),
              3: ("                invariant\n" + TM_COMMON + "            0 <= tile_y < tilemap_height, 0 <= tile_x < tilemap_width,\n"
-                 "            tile_pixels.len() == (tile_size.width as int) * (tile_size.height as int),\n"),
+                 "            tile_pixels.len() == (tile_size.width as int) * (tile_size.height as int),\n" + TM_TILE
+                 + TM_PIX("tile_y as int", "tile_x as int", "pixel_y as int", "0", "            ")),
              4: ("                    invariant\n" + TM_COMMON + "            0 <= tile_y < tilemap_height, 0 <= tile_x < tilemap_width, 0 <= pixel_y < tile_height,\n"
-                 "            tile_pixels.len() == (tile_size.width as int) * (tile_size.height as int),\n"),
+                 "            tile_pixels.len() == (tile_size.width as int) * (tile_size.height as int),\n" + TM_TILE
+                 + TM_PIX("tile_y as int", "tile_x as int", "pixel_y as int", "pixel_x as int", "            ")),
+         },
+         "loop_ends": {
+             1: "        proof { lemma_tm_carry_all(cel_data, tilemap_data, tileset, tile_y as int, 0, 0); }",
+             2: "            proof { lemma_tm_carry_all(cel_data, tilemap_data, tileset, tile_y as int, tile_x as int, 0); }",
+             3: "                proof { lemma_tm_carry_all(cel_data, tilemap_data, tileset, tile_y as int, tile_x as int, pixel_y as int); }",
          },
          "hints": [
+             ("for tile_y in",
+              "    proof { lemma_tm_carry_all(cel_data, tilemap_data, tileset, 0, 0, 0); }", "before"),
              ("let tile_pixels =",
               "            assert(tilemap_data.tiles.0[(tile_y as int) * (tilemap_data.width as int) + (tile_x as int)] == *tile);\n"
               "            assert(0 <= (tile_y as int) * (tilemap_data.width as int) + (tile_x as int) < tilemap_data.tiles.0.len()) by (nonlinear_arith)\n"
@@ -160,6 +179,24 @@ UNITS["tilemap"] = {
               "                        requires 0 <= (pixel_y as int) <= 65535, 0 <= (tile_width as int) <= 65535;\n"
               "                    assert((tile_x as int) * (tile_width as int) <= 65535 * 65535 && (tile_y as int) * (tile_height as int) <= 65535 * 65535) by (nonlinear_arith)\n"
               "                        requires 0 <= (tile_x as int) <= 65535, 0 <= (tile_width as int) <= 65535, 0 <= (tile_y as int) <= 65535, 0 <= (tile_height as int) <= 65535;", "before"),
+             ("let x_in_bounds =",
+              "                    proof { lemma_tm_step_all(cel_data, tilemap_data, tileset, tile_y as int, tile_x as int, pixel_y as int, pixel_x as int); }", "before"),
+             ("image.put_pixel(image_x, image_y, new);",
+              "                        proof {\n"
+              "                            let gx = image_x as int; let gy = image_y as int;\n"
+              "                            let tw = tile_size.width as int; let th = tile_size.height as int;\n"
+              "                            assert(gx == (tile_x as int) * tw + (pixel_x as int) + (cel_data.x as int));\n"
+              "                            assert(gy == (tile_y as int) * th + (pixel_y as int) + (cel_data.y as int));\n"
+              "                            assert(tm_src_index(cel_data, tilemap_data, tileset, gx, gy) == (tile.id.0 as int) * (tw * th) + (pixel_y as int) * tw + (pixel_x as int));\n"
+              "                            assert(pixel_idx as int == (pixel_y as int) * tw + (pixel_x as int));\n"
+              "                            assert(image_pixel == tile_pixels@[pixel_idx as int]);\n"
+              "                            assert(0 <= (tile.id.0 as int) * (tw * th)) by (nonlinear_arith) requires 0 <= (tile.id.0 as int), 0 <= tw * th;\n"
+              "                            assert((tile.id.0 as int + 1) * (tw * th) == (tile.id.0 as int) * (tw * th) + tw * th) by (nonlinear_arith);\n"
+              "                            assert(tile_pixels@[pixel_idx as int] == pixels@[(tile.id.0 as int) * (tw * th) + pixel_idx as int]);\n"
+              "                            assert(image_pixel == pixels@[tm_src_index(cel_data, tilemap_data, tileset, gx, gy)]);\n"
+              "                            assert(src == old(image).at(gx, gy));\n"
+              "                            assert(new == tm_cel_pixel(old(image), cel_data, tilemap_data, tileset, pixels@, *blend_mode, outer_opacity, gx, gy));\n"
+              "                        }", "before"),
          ]},
     ],
 }
